@@ -307,6 +307,15 @@ def load_known():
     return json.load(open(p)).get("findings", [])
 
 
+def unmet_floors(spec, fold, tier):
+    out = []
+    for k, minimum in spec.get("floors", {}).get(tier, {}).items():
+        have = fold.evaluations if k == "evaluations" else (len(fold.sigs) if k == "distinct_nontrivial" else fold.counters.get(k, 0))
+        if have < minimum:
+            out.append((k, have, minimum))
+    return out
+
+
 def finish(spec, fold, tier, seed, t0, replay_mode=False):
     """Applies floors + known findings, writes evidence, prints verdict lines, returns exit code."""
     pid = spec["id"]
